@@ -9,10 +9,10 @@ namespace Sfs.C07
 open Sfs
 
 /-- A spectrum as the writer sees it: non-empty shape, one pattern per element, where the element count is the
-    *checked* left-to-right product — exactly the `Array::new` invariant (`Arr.new?`) every constructible spectrum
-    satisfies. The plain `size shape < 2^64 ∧ bits.length = size shape` formulation is too weak: for
-    shape `[2^63, 2^63, 0]`, `bits = []` the product is 0 but `checked_elements` overflows on the prefix, so both
-    readers reject what the writers emit. -/
+    *checked* product — exactly the `Array::new` invariant (`Arr.new?`) every constructible spectrum satisfies
+    (the product of the non-zero lengths fits 64 bits; see `checkedSize`). The plain `size shape < 2^64 ∧
+    bits.length = size shape` formulation is too weak: for shape `[2^63, 2^63, 0]`, `bits = []` the product is 0
+    but `checked_elements` rejects it, so both readers reject what the writers would emit. -/
 def WfSpectrum (shape bits : List Nat) : Prop :=
   shape ≠ [] ∧ (∀ v ∈ shape, v < 2 ^ 64) ∧ checkedSize shape = some bits.length ∧ ∀ b ∈ bits, b < 2 ^ 64
 
@@ -20,7 +20,12 @@ def WfSpectrum (shape bits : List Nat) : Prop :=
     (NaN payloads, infinities, signed zeros, subnormals included). -/
 theorem npy_roundtrip (shape bits bytes : List Nat) (hwf : WfSpectrum shape bits)
     (hw : writeNpy shape bits = .ok bytes) : readNpy bytes = .ok (shape, bits) := by
-  sorry
+  obtain ⟨hne, hb, hsz, hbits⟩ := hwf
+  obtain ⟨hd, hh, rfl⟩ := writeNpy_eq_ok shape bits bytes hw
+  obtain ⟨L, pad, rfl, hL, _, _, hlt⟩ := npyHeader_layout shape hd hh
+  rw [readNpy_written shape hne hb L pad hL hlt,
+    readValues_le_f8_flatten bits _ hbits (by rw [flatten_leBytes8_length]; omega)]
+  simp only [hsz, if_true]
 
 /-- The npy writer succeeds whenever the header dictionary fits the v1.0 length field. -/
 theorem writeNpy_ok (shape bits : List Nat) (h : (npyDict shape).length + 64 < 65536) :
@@ -38,7 +43,7 @@ theorem detect_npy (shape bits bytes : List Nat) (hw : writeNpy shape bits = .ok
 /-- The tool reads what it writes (npy): auto-detection + reader return the spectrum written. -/
 theorem reads_what_it_writes_npy (shape bits bytes : List Nat) (hwf : WfSpectrum shape bits)
     (hw : writeNpy shape bits = .ok bytes) : readSpectrum bytes = .ok (shape, bits) := by
-  sorry
+  simp only [readSpectrum, detect_npy shape bits bytes hw, npy_roundtrip shape bits bytes hwf hw]
 
 /-! non-vacuity: shape [2,1,3] with NaN, -0.0, a subnormal, 1e308, -inf -/
 example : (readNpy ((writeNpy [2, 1, 3] [0x7ff8000000000001, 0x8000000000000000, 1, 0x7fe1ccf385ebc8a0, 0xfff0000000000000, 0x3ff0000000000000]).toOption.getD [])).toOption
